@@ -115,6 +115,8 @@ def native_replay(inst, q, workdir, inputs=None, run_timeout=120):
     # which file-local symbols does the harness use?
     used = set(re.findall(r"__CPROVER_file_local_(\w+?)_([ch])_(\w+)", htext))
     for tu in inst.tus:
+        if tu == "langflags":
+            continue        # natively the real tables are linked (below)
         p = subprocess.run(["gcc", "-E", "-std=c11", "-DPOLYSEED_STATIC"] + cfgflags + ndebug + inc +
                            [os.path.join(core.REPO, "src", tu + ".c")], capture_output=True, text=True)
         if p.returncode != 0:
